@@ -89,7 +89,7 @@ def gen_texts(tier, seed, n_quick, n_thorough, profile=None):
     stats = {}
     for k in range(n):
         r = random.Random('%d/%d' % (seed, k))
-        prof = profile or G.Profile(typedef_of_enumerated=(k % 2 == 0), member_param_values=(k % 2 == 1), dup_values=(k % 3 == 0))
+        prof = profile or G.Profile(typedef_of_enumerated=(k % 2 == 0), member_param_values=(k % 2 == 1), dup_values=(k % 3 == 0), qualified_typedefs=True, max_ns_depth=4)
         if tier == 'thorough' and k % 3 == 0:
             prof = copy.copy(prof)
             prof.max_decls, prof.max_ns_depth, prof.max_type_depth = 10, 5, 5
